@@ -5,36 +5,105 @@ From MPV Require Import Model.Coll Proofs.CollProofs.
 Import ListNotations.
 Open Scope Z_scope.
 
-(* The invariant and the premises it is proved under (definitions in Proofs/CollProofs.v):
+(* Definitions (Proofs/CollProofs.v):
 
-   Inv s    := NoDup (numbers_of s)
-               /\ (forall n o, In (n, o) (cache s) -> In o (objs s))
-               /\ (clink s = true -> forall o, In o (objs s) -> olink s o = true)
-   op_ok s o := match o with
-                | SetNum x n => clink s = true \/ ~ In x (objs s) \/ ~ In n (numbers_of s)
-                | _ => True end
-   ops_ok s ops := op_ok holds for every operation in the state it is applied to *)
+   Inv s      := NoDup (numbers_of s) /\ (forall n o, In (n, o) (cache s) -> In o (objs s))
+   Linked s   := clink s = true -> forall o, In o (objs s) -> olink s o = LThis
+   key_inj s  := forall a b, okey s a = okey s b -> a = b          (== is identity)
 
-(* 1. the constructor establishes the invariant *)
+   premises on one operation, each evaluated in the state the operation is applied to:
+   op_ok s o    := match o with
+                   | SetNum x n => olink s x = LThis \/ ~ In x (objs s) \/ ~ In n (numbers_of s)
+                   | Remove x   => find_eq s x = Some x \/ find_eq s x = None
+                   | _ => True end
+   op_same s o  := the Remove clause of op_ok alone
+   op_keeps s o := match o with FAppend x => ~ In x (objs s) | _ => True end
+   ops_ok / ops_same / ops_keep: the premise holds for every operation of the sequence *)
+
+(* 1. the constructor establishes the invariant (and the link clause when given linked members) *)
 Theorem C06_init_inv :
-  forall l numf lk ty cl s,
-    init l numf lk ty cl = Some s ->
-    (cl = true -> forall o, In o l -> lk o = true) ->
-    Inv s.
+  forall l numf kf lk ty cl fl s, init l numf kf lk ty cl fl = Some s -> Inv s.
 Proof. exact init_inv. Qed.
 Print Assumptions C06_init_inv.
 
-(* 2. every operation preserves it *)
-Theorem C06_step_inv : forall s o, Inv s -> op_ok s o -> Inv (fst (step s o)).
+Theorem C06_init_linked :
+  forall l numf kf lk ty cl fl s,
+    init l numf kf lk ty cl fl = Some s ->
+    (cl = true -> forall o, In o l -> lk o = LThis) -> Linked s.
+Proof. exact init_linked. Qed.
+Print Assumptions C06_init_linked.
+
+(* 2. every operation preserves the invariant — not at full strength: the faithful model of the
+      unchanged code breaks it through remove(x) with x equal to, but not identical with, a member
+      (C06_inv_refuted), and a collection cannot see the renumbering of a member that is not linked
+      to its problem.  op_ok excludes exactly these two. *)
+Theorem C06_step_inv_partial : forall s o, Inv s -> op_ok s o -> Inv (fst (step s o)).
 Proof. exact step_inv. Qed.
-Print Assumptions C06_step_inv.
+Print Assumptions C06_step_inv_partial.
 
-(* 3. hence it holds in every reachable state *)
-Theorem C06_inv : forall ops s, Inv s -> ops_ok s ops -> Inv (run s ops).
+(* 3. hence it holds in every state reachable inside the premise *)
+Theorem C06_inv_partial : forall ops s, Inv s -> ops_ok s ops -> Inv (run s ops).
 Proof. exact run_inv. Qed.
-Print Assumptions C06_inv.
+Print Assumptions C06_inv_partial.
 
-(* 4. look-ups are current: get returns exactly the member whose number is n now *)
+Example C06_inv_partial_satisfiable :
+  exists s ops, Inv s /\ ops_ok s ops /\ List.length ops = 3%nat /\ objs (run s ops) <> objs s.
+Proof. exact inv_partial_satisfiable. Qed.
+Print Assumptions C06_inv_partial_satisfiable.
+
+(* 4. the full statement is false of the unchanged code: remove(twin), renumber the removed object
+      back, and get() answers an object that is not a member.  Only SetNum and Remove are used, the
+      collection is a problem's, no member is taken over by another problem. *)
+Theorem C06_inv_refuted :
+  exists s ops n o,
+    Inv s /\ Linked s /\ clink s = true /\ ops_keep s ops /\
+    (forall p, In p ops -> match p with Remove _ => True | SetNum _ _ => True | _ => False end) /\
+    snd (get (run s ops) n) = Some o /\ ~ In o (objs (run s ops)).
+Proof. exact inv_refuted. Qed.
+Print Assumptions C06_inv_refuted.
+
+Theorem C06_refuted_outside_premise :
+  ops_ok refute_st [SetNum 0%nat 6] /\
+  ~ op_ok (run refute_st [SetNum 0%nat 6]) (Remove 1%nat) /\
+  ~ ops_ok refute_st refute_ops.
+Proof. exact refuted_outside_premise. Qed.
+Print Assumptions C06_refuted_outside_premise.
+
+(* 5. a problem's collection keeps its members linked as long as no other problem's collection
+      takes one of them over *)
+Theorem C06_linked : forall ops s, Linked s -> ops_keep s ops -> Linked (run s ops).
+Proof. exact run_linked. Qed.
+Print Assumptions C06_linked.
+
+(* 6. full strength for a problem's collection of cells, transforms or universes (== is identity):
+      every sequence of operations keeps the invariant; the only side condition is that no
+      member is appended to another problem's collection *)
+Theorem C06_inv_identity_kinds :
+  forall ops s, Inv s -> Linked s -> clink s = true -> key_inj s -> ops_keep s ops ->
+    Inv (run s ops) /\ Linked (run s ops).
+Proof. exact run_inv_identity. Qed.
+Print Assumptions C06_inv_identity_kinds.
+
+Example C06_inv_identity_kinds_satisfiable :
+  exists s ops, Inv s /\ Linked s /\ clink s = true /\ key_inj s /\ ops_keep s ops /\
+                ops_same s ops /\ objs s <> [] /\ List.length ops = 4%nat.
+Proof. exact inv_identity_satisfiable. Qed.
+Print Assumptions C06_inv_identity_kinds_satisfiable.
+
+(* 7. a problem's collection of any kind, surfaces and materials included: the premise that is
+      left is op_same (remove() is given the member itself, or an object no member equals) *)
+Theorem C06_inv_linked_partial :
+  forall ops s, Inv s -> Linked s -> clink s = true -> ops_keep s ops -> ops_same s ops ->
+    Inv (run s ops) /\ Linked (run s ops).
+Proof. exact run_inv_linked. Qed.
+Print Assumptions C06_inv_linked_partial.
+
+(* 8. the boolean premise the harness asks the model for is the premise of the theorems *)
+Theorem C06_premise_decided : forall s o, op_okb s o = true <-> op_ok s o.
+Proof. exact op_okb_spec. Qed.
+Print Assumptions C06_premise_decided.
+
+(* 9. look-ups are current: get returns exactly the member whose number is n now *)
 Theorem C06_lookup :
   forall s n o, Inv s -> (snd (get s n) = Some o <-> In o (objs s) /\ num s o = n).
 Proof. exact get_lookup. Qed.
@@ -45,7 +114,7 @@ Theorem C06_lookup_none :
 Proof. exact get_lookup_none. Qed.
 Print Assumptions C06_lookup_none.
 
-(* 5. requested numbers are free *)
+(* 10. requested numbers are free *)
 Theorem C06_request_fresh :
   forall s a k s' n, request_number s a k = (s', RNum n) -> ~ In n (numbers_of s').
 Proof. exact request_fresh. Qed.
@@ -56,27 +125,33 @@ Theorem C06_next_fresh :
 Proof. exact next_fresh. Qed.
 Print Assumptions C06_next_fresh.
 
-(* 6. request_number terminates: the model's fuel |objs|+1 is never exhausted *)
+(* 11. request_number terminates: the model's fuel |objs|+1 is never exhausted *)
 Theorem C06_request_terminates :
   forall s a k, k <> 0 -> forall s', request_number s a k <> (s', RErr OutOfFuel).
 Proof. exact request_terminates. Qed.
 Print Assumptions C06_request_terminates.
 
-(* 7. a NumberConflictError leaves members, numbers and links unchanged *)
+(* 12. a NumberConflictError leaves members, numbers and links unchanged (the members of the other
+       problem's collection too) *)
 Theorem C06_conflict_atomic :
   forall s o s', Inv s -> step s o = (s', RErr NumberConflict) ->
     objs s' = objs s /\ (forall x, num s' x = num s x) /\ (forall x, olink s' x = olink s x).
 Proof. exact conflict_atomic. Qed.
 Print Assumptions C06_conflict_atomic.
 
-(* 8. so does a TypeError *)
+Theorem C06_conflict_atomic_foreign :
+  forall s o s', step s o = (s', RErr NumberConflict) -> fobjs s' = fobjs s.
+Proof. exact conflict_atomic_foreign. Qed.
+Print Assumptions C06_conflict_atomic_foreign.
+
+(* 13. so does a TypeError *)
 Theorem C06_type_error_atomic :
   forall s o s', step s o = (s', RErr TypeErr) ->
     objs s' = objs s /\ (forall x, num s' x = num s x) /\ (forall x, olink s' x = olink s x).
 Proof. exact type_error_atomic. Qed.
 Print Assumptions C06_type_error_atomic.
 
-(* 9. the invariant is not vacuous *)
+(* 14. the invariant is not vacuous *)
 Example C06_inv_nonvacuous : exists s, Inv s /\ objs s <> [] /\ cache s <> [].
 Proof. exact inv_nonvacuous. Qed.
 Print Assumptions C06_inv_nonvacuous.
